@@ -23,6 +23,14 @@ Next ==
            ELSE IF e.cf = 1 /\ e.cg = 0 THEN Reject("shortcut_text_does_not_compile")
            ELSE IF e.cf = 0 /\ e.cg = 0 /\ e.fast # e.gen THEN Reject("shortcut_decision_differs_from_general_engine")
            ELSE IF "q" \in DOMAIN e /\ e.q >= 0 /\ e.cg = 0 /\ e.q # e.gen THEN Reject("query_decision_differs_from_general_engine")
+           \* other spellings of the same predicate (literal OP column with the mirrored operator): 2 = panic, -1 = did not compile
+           ELSE IF "alt" \in DOMAIN e /\ e.cg = 0 /\ \E k \in 1..Len(e.alt) : e.alt[k] = 2 THEN Reject("panic_in_predicate_evaluation")
+           ELSE IF "alt" \in DOMAIN e /\ e.cg = 0 /\ \E k \in 1..Len(e.alt) : e.alt[k] \in {0, 1} /\ e.alt[k] # e.gen THEN Reject("equivalent_spelling_decides_differently_from_general_engine")
+           ELSE UNCHANGED dead
+        /\ UNCHANGED tr
+     ELSE IF e.e = "conc" THEN
+        /\ IF e.panics > 0 THEN Reject("panic_in_concurrent_predicate_evaluation")
+           ELSE IF e.bad > 0 THEN Reject("decision_changes_under_concurrent_evaluation")
            ELSE UNCHANGED dead
         /\ UNCHANGED tr
      ELSE UNCHANGED <<tr, dead>>
